@@ -64,6 +64,22 @@ theorem C05_roundtrip_remote (m e rest : Bytes) (h : rblast m = some e) :
   have := sim rest m .top .s1 e (by simp [rel]) h
   simpa [dblast, pend, cst, canon, emit] using this
 
+/-- **Round trip with this package's own client, byte-identical case** (audit E, item 1): `canon m` above is the
+message with its CR-conventions normalised (`CR LF ↦ LF`, a bare `CR ↦ LF`); for a message **without CR bytes**
+it is the message itself (the same induction as `C06_identity`), so the server stores exactly `m`. -/
+theorem C05_roundtrip_remote_id (m e rest : Bytes) (h : rblast m = some e) (hcr : CR ∉ m) :
+    dblast (e ++ rest) = .accepted m rest := by
+  have hc : ∀ l : Bytes, CR ∉ l → canon l = l := by
+    intro l hl
+    unfold canon
+    induction l with
+    | nil => simp [crun, cfinish]
+    | cons x l ih =>
+      have hx : x ≠ CR := fun hx => hl (by simp [hx])
+      have hm : CR ∉ l := fun hm => hl (by simp [hm])
+      simp [crun, cstep, hx, ih hm]
+  rw [C05_roundtrip_remote m e rest h, hc m hcr]
+
 /-! ### The hop counter that runs over the same bytes -/
 
 /-- **C05_hops.**  The `pos / flagmaybex / flagmaybey / flagmaybez / flaginheader` scanner inside `blast()`
@@ -108,6 +124,10 @@ example : completeLines [46, 97, 10] ∧ rfcEncode [46, 97, 10] = [46, 46, 97, 1
   constructor
   · right; decide
   · decide
+/-- hypotheses of `C05_roundtrip_remote_id` met by a CR-free message with a dot line (". LF a LF"), and a message with a
+CR ("a CR LF") for which only `C05_roundtrip_remote` applies: it is stored as `canon m` = "a LF" -/
+example : rblast [46, 10, 97, 10] = some [46, 46, 13, 10, 97, 13, 10, 46, 13, 10] ∧ CR ∉ [(46 : UInt8), 10, 97, 10] := by decide
+example : rblast [97, 13, 10] = some [97, 13, 10, 46, 13, 10] ∧ canon [97, 13, 10] = [97, 10] := by decide
 
 -- "Received:" CR LF "DELIVERED-" CR LF "receive:" CR LF CR LF "Received:" CR LF: two hops (near miss and body line not counted)
 set_option maxRecDepth 100000 in
